@@ -8,12 +8,15 @@ from .common import cfloat, cnat, clist
 MANIFEST = {
     "text": "Coq 8.16 theorems over a tree model of composed models (walk, id-ordered unique priors, instance construction for "
             "Model/Collection/tuple/arithmetic nodes): parameter count = number of distinct priors, advertised order strictly "
-            "increasing in id, the i-th vector entry is placed at every structural path of the i-th parameter, constants untouched, "
-            "derived and tuple values computed from the same assignment, vector and path routes agree; tied to the code by a "
+            "increasing in id, the i-th vector entry is found at the i-th advertised path (structural paths and tuple members; every advertised "
+            "path is classified) and at every structural path of the i-th parameter, constants untouched, "
+            "derived and tuple values computed from the same assignment, frame property, vector / unit-vector / path routes agree "
+            "(any choice of paths, last entry wins); tied to the code by a "
             "bit-exact vm_compute correspondence on generated composition programs (two-sided abstraction) and a direct property oracle",
     "note": "Trusted: Coq kernel + vm_compute; the harness's raw __dict__ abstraction of live model objects and instances; the "
             "composition API itself is compared with the generator's expected tree. Not modelled: AnnotationPriorModel, deferred "
-            "arguments, Array models (oracle only), jax pytrees; attribute names of arithmetic priors are read from the live object.",
+            "arguments, Array models and the arithmetic forms -, **, neg, abs (oracle only: ModelTree has no node for them), jax pytrees; "
+            "value_for of the priors enters the unit route as a table; attribute names of arithmetic priors are read from the live object.",
     "technique": "machine-checked proof in Coq (hand-written tree model) + vm_compute correspondence",
 }
 
@@ -39,30 +42,37 @@ def vec_inside(rng, pool, mode="inside"):
     return vec
 
 
+def children(e):
+    """Sub-expressions of a program node (copies resolved)."""
+    t = e["t"]
+    if t == "arith":
+        return [e["l"], e["r"]]
+    if t == "unary":
+        return [e["a"]]
+    if t == "tuple":
+        return list(e["members"])
+    if t == "model":
+        return list(e["kw"].values()) + [v for _, v in e.get("extra", [])]
+    if t == "coll":
+        return [v for _, v in MG.resolve_copies(e)["items"]]
+    if t == "array":
+        return list(e["elems"])
+    return []
+
+
 def referenced(e, acc=None):
     """Pool indices of the priors a program's tree refers to."""
+    top = acc is None
     acc = set() if acc is None else acc
-    t = e["t"]
-    if t == "prior":
+    if e["t"] == "prior":
         acc.add(e["ref"])
-    elif t == "arith":
-        referenced(e["l"], acc)
-        referenced(e["r"], acc)
-    elif t == "tuple":
-        for m in e["members"]:
-            referenced(m, acc)
-    elif t == "model":
-        for v in e["kw"].values():
-            referenced(v, acc)
-        for _, v in e.get("extra", []):
-            referenced(v, acc)
-    elif t == "coll":
-        for _, v in MG.resolve_copies(e)["items"]:
-            referenced(v, acc)
-    elif t == "array":
-        for m in e["elems"]:
-            referenced(m, acc)
-    return sorted(acc)
+    for ch in children(e):
+        referenced(ch, acc)
+    return sorted(acc) if top else acc
+
+
+def any_node(e, pred):
+    return pred(e) or any(any_node(ch, pred) for ch in children(e))
 
 
 def model_sites(e, path=()):
@@ -71,7 +81,7 @@ def model_sites(e, path=()):
     if e["t"] == "model":
         out.append((list(path), e))
         for arg, kind, extra in MG.SIGNATURES[e["cls"]]:
-            if kind == "class":
+            if kind in ("class", "list"):
                 out += model_sites(e["kw"][arg], path + (arg,))
     elif e["t"] == "coll":
         if any(sub["t"] == "copy" for _, sub in e["items"]):
@@ -79,6 +89,15 @@ def model_sites(e, path=()):
         for k, sub in e["items"]:
             out += model_sites(sub, path + (k,))
     return out
+
+
+def tuple_member_of(node, arg):
+    """(tuple argument, index) when `arg` names a member of a tuple argument of the model node."""
+    if "_" in arg:
+        base, suffix = arg.rsplit("_", 1)
+        if suffix.isdigit() and base in node["kw"] and node["kw"][base]["t"] == "tuple":
+            return base, int(suffix)
+    return None
 
 
 def apply_edit(root, edit):
@@ -91,8 +110,9 @@ def apply_edit(root, edit):
         else:
             node = [sub for kk, sub in node["items"] if kk == k][0]
     arg = edit["arg"]
-    if "_" in arg and arg.rsplit("_", 1)[0] in node["kw"] and node["kw"][arg.rsplit("_", 1)[0]]["t"] == "tuple":
-        node["kw"][arg.rsplit("_", 1)[0]]["members"][int(arg.rsplit("_", 1)[1])] = edit["new"]
+    tm = tuple_member_of(node, arg)
+    if tm:
+        node["kw"][tm[0]]["members"][tm[1]] = edit["new"]
     else:
         node["kw"][arg] = edit["new"]
     return new
@@ -103,16 +123,31 @@ def vec_for(rng, pool, refs):
     return [full[i] for i in refs]
 
 
+def unit_for(rng, pool, refs):
+    """Unit values: the closed interval for uniform priors, the open interval for the other families (their
+    value_for raises at 0 and 1)."""
+    out = []
+    for i in refs:
+        if pool[i]["family"] == "uniform":
+            u = rng.choice([0.0, 0.25, 0.5, 1.0, rng.random()])
+        else:
+            u = rng.choice([0.25, 0.5, 0.75, 0.05 + 0.9 * rng.random()])
+        out.append(u.hex())
+    return out
+
+
 def gen_cases(ctx, n):
     rng = ctx.rng
     cases = []
     for i in range(n):
+        ext = rng.random() < 0.75      # a quarter of the programs stay in the original (ModelTree-only) shapes
         g = MG.Gen(rng, max_depth=2 if ctx.tier == "quick" else 4, big_tuples=True, arrays=True,
-                   families=("uniform", "uniform", "uniform", "gaussian", "loguniform"))
+                   families=("uniform", "uniform", "uniform", "gaussian", "loguniform"),
+                   tuple_member_kinds=ext, underscore_classes=ext, more_ops=ext, more_forms=ext, defaults=ext)
         prog = g.program()
         if len(prog["pool"]) > 40:
             continue
-        c = {"program": prog}
+        c = {"program": prog, "pseed": rng.randrange(1 << 30)}
         sites = model_sites(prog["root"])
         if sites and rng.random() < 0.45:
             # an edit applied after a freeze / query / unfreeze cycle; may introduce a prior created
@@ -129,7 +164,8 @@ def gen_cases(ctx, n):
                 r = rng.random()
                 if r < 0.45:
                     new = {"t": "const", "v": (rng.randint(-8, 8) / 4.0).hex()}
-                elif r < 0.75 and prog["pool"]:
+                elif prog["pool"] and (r < 0.75 or any(sp.get("default") for sp in prog["pool"])):
+                    # (a prior created up front cannot be appended behind config-default priors: they are created later)
                     new = {"t": "prior", "ref": rng.randrange(len(prog["pool"]))}
                 else:
                     prog["pool"].append({"family": "uniform", "lo": (-1.0).hex(), "hi": (3.0).hex()})
@@ -138,12 +174,12 @@ def gen_cases(ctx, n):
                 prog["features"] = sorted(set(prog["features"]) | {"edit-after-freeze"})
         refs = referenced(prog["root"])
         c["vec"] = [v.hex() for v in vec_for(rng, prog["pool"], refs)]
-        c["unit"] = [rng.choice([0.0, 0.25, 0.5, 1.0, rng.random()]).hex() for _ in refs]
+        c["unit"] = unit_for(rng, prog["pool"], refs)
         if "edit" in c:
             root2 = apply_edit(prog["root"], c["edit"])
             refs2 = referenced(root2)
             c["vec2"] = [v.hex() for v in vec_for(rng, prog["pool"], refs2)]
-            c["unit2"] = [rng.choice([0.0, 0.25, 0.5, 1.0, rng.random()]).hex() for _ in refs2]
+            c["unit2"] = unit_for(rng, prog["pool"], refs2)
         cases.append(c)
     return cases
 
@@ -155,6 +191,10 @@ def apply_op(op, a, b):
         return a * b
     if op == "/":
         return a / b
+    if op == "-":
+        return a - b
+    if op == "**":
+        return a ** b
     raise ValueError(op)
 
 
@@ -169,6 +209,9 @@ def expected_instance(e, vec):
         a = unhex(expected_instance(e["l"], vec)["v"])
         b = unhex(expected_instance(e["r"], vec)["v"])
         return {"t": "v", "v": apply_op(e["op"], a, b).hex()}
+    if t == "unary":
+        a = unhex(expected_instance(e["a"], vec)["v"])
+        return {"t": "v", "v": (-a if e["op"] == "neg" else abs(a)).hex()}
     if t == "tuple":
         return {"t": "tup", "vs": [expected_instance(m, vec) for m in e["members"]]}
     if t == "model":
@@ -224,34 +267,60 @@ def navigate(inst, path):
 
 
 def has_division_by_zero(e, vec):
-    t = e["t"]
-    if t == "arith":
+    if e["t"] == "arith" and e["op"] == "/":
         if has_division_by_zero(e["l"], vec) or has_division_by_zero(e["r"], vec):
             return True
-        if e["op"] == "/":
-            try:
-                return unhex(expected_instance(e["r"], vec)["v"]) == 0.0
-            except ZeroDivisionError:
-                return True
-        return False
-    if t == "tuple":
-        return any(has_division_by_zero(m, vec) for m in e["members"])
-    if t == "model":
-        return any(has_division_by_zero(v, vec) for v in e["kw"].values()) or any(has_division_by_zero(v, vec) for _, v in e.get("extra", []))
-    if t == "coll":
-        return any(has_division_by_zero(v, vec) for _, v in MG.resolve_copies(e)["items"])
-    return False
+        try:
+            return unhex(expected_instance(e["r"], vec)["v"]) == 0.0
+        except ZeroDivisionError:
+            return True
+    return any(has_division_by_zero(ch, vec) for ch in children(e))
 
 
-def oracle(c, r, root=None, vec_hex=None):
+def program_path_kind(root, path):
+    """How an advertised path runs through the PROGRAM: 'structural' (Model / Collection attributes only),
+    'tuple' (ends in a tuple member), 'array', 'arith' (enters an arithmetic prior: its operand attribute names come
+    from caller frames and the instance holds only the computed value there), or None when the program has no such path."""
+    cur = root
+    kind = "structural"
+    for k in path:
+        t = cur["t"]
+        if t == "model":
+            nxt = cur["kw"].get(k)
+            if nxt is None:
+                nxt = dict((a, b) for a, b in cur.get("extra", [])).get(k)
+        elif t == "coll":
+            nxt = dict((str(a), b) for a, b in MG.resolve_copies(cur)["items"]).get(k)
+        elif t == "tuple":
+            idx = MG.member_index(k)
+            nxt = cur["members"][idx] if idx < len(cur["members"]) else None
+            kind = "tuple"
+        elif t == "array":
+            keys = MG.array_keys(cur["shape"])
+            nxt = cur["elems"][keys.index(k)] if k in keys else None
+            kind = "array"
+        elif t in ("arith", "unary"):
+            return "arith"
+        else:
+            nxt = None
+        if nxt is None:
+            return None
+        cur = nxt
+    return "arith" if cur["t"] in ("arith", "unary") else kind
+
+
+def oracle(c, r, root, vec_hex, unit_hex, stats, skip_inst=False):
+    """The property, stated on the implementation's observables and the program (independent of the Coq model).
+    Returns the first violated clause or None; stats (a dict) counts what was compared."""
     prog = c["program"]
-    root = prog["root"] if root is None else root
     refs = referenced(root)
     n = len(refs)
-    vlist = [unhex(x) for x in (c["vec"] if vec_hex is None else vec_hex)]
+    vlist = [unhex(x) for x in vec_hex]
     vec = dict(zip(refs, vlist))
     if not r["id_order_ok"]:
-        return "harness: pool ids not increasing"
+        return "harness: pool ids not increasing (creation order of the program's priors is not what the generator assumed)"
+    if r.get("structure"):
+        return "harness assumption about live objects broken: %s" % r["structure"][0]
     if r["count"] != n:
         return "prior_count %d but %d distinct free parameters" % (r["count"], n)
     if r["ids"] != refs:
@@ -260,53 +329,191 @@ def oracle(c, r, root=None, vec_hex=None):
         return "unique_prior_paths has %d entries for %d parameters" % (len(r["upaths"]), n)
     if not r["paths_resolve"]:
         return "an advertised path does not resolve to its prior"
+    for p in r["upaths"]:
+        if p not in r["paths"]:
+            return "unique path %s is not among paths" % ".".join(p)
+    if skip_inst:
+        return None
     if "exc" in r["inst"]:
         return "instance_from_vector raised %s for a vector within limits" % r["inst"]["exc"]
     inst = r["inst"]["ok"]
     exp = expected_instance(root, vec)
     # i-th value at the i-th advertised path
     for i, p in enumerate(r["upaths"]):
+        kind = program_path_kind(root, p)
+        stats["advertised-path:" + str(kind)] = stats.get("advertised-path:" + str(kind), 0) + 1
+        if kind is None:
+            return "advertised path %s does not exist in the composition" % ".".join(p)
+        if kind == "arith":
+            continue                  # inside an arithmetic prior: the instance holds the computed value only
         got = navigate(inst, p)
-        if got is not None and got["t"] == "v" and unhex(got["v"]) != vlist[i]:
+        if got is None or got["t"] != "v":
+            return "advertised path %s (value %d) is not addressable in the instance" % (".".join(p), i)
+        if unhex(got["v"]) != vlist[i]:
             return "value %d (%r) is not at advertised path %s (found %r)" % (i, vlist[i], ".".join(p), unhex(got["v"]))
     if not same_inst(exp, inst):
         return "instance_from_vector differs from the instance the composition denotes"
-    for name in ("inst_paths",):
+    for name in ("inst_paths", "inst_paths_any"):
         if "exc" in r[name]:
             return "%s raised %s" % (name, r[name]["exc"])
         if not same_inst(inst, r[name]["ok"]):
-            return "instance_from_path_arguments differs from instance_from_vector"
-    if "ok" in r["inst_unit"] and "ok" in r.get("inst_vec_of_unit", {}):
-        if not same_inst(r["inst_unit"]["ok"], r["inst_vec_of_unit"]["ok"]):
-            return "instance_from_unit_vector differs from instance_from_vector(vector_from_unit_vector)"
-    elif "exc" in r["inst_unit"] and "ok" in r.get("inst_vec_of_unit", {}):
-        return "instance_from_unit_vector raised %s but the physical route succeeds" % r["inst_unit"]["exc"]
+            return "instance_from_path_arguments (%s) differs from instance_from_vector" % (
+                "unique paths" if name == "inst_paths" else "freely chosen paths %s" % r["pv"])
+    stats["path-route:entries>params"] = stats.get("path-route:entries>params", 0) + (1 if len(r["pv"]) > n else 0)
+    # unit route: independent expectation for uniform priors, the implementation's value_for table otherwise
+    units = [unhex(x) for x in unit_hex]
+    if "ok" in r["vec_from_unit"]:
+        vfu = [unhex(x) for x in r["vec_from_unit"]["ok"]]
+        if len(vfu) != n:
+            return "vector_from_unit_vector has %d entries for %d parameters" % (len(vfu), n)
+        for i, ref in enumerate(refs):
+            spec = prog["pool"][ref]
+            if spec["family"] == "uniform":
+                lo, hi = unhex(spec["lo"]), unhex(spec["hi"])
+                e = lo + units[i] * (hi - lo)
+                if abs(vfu[i] - e) > 1e-12 * max(1.0, abs(e)):
+                    return "vector_from_unit_vector[%d] = %r, uniform prior (%r, %r) at unit %r gives %r" % (i, vfu[i], lo, hi, units[i], e)
+        if "exc" in r["inst_unit"]:
+            return "instance_from_unit_vector raised %s but vector_from_unit_vector succeeds" % r["inst_unit"]["exc"]
+        if has_division_by_zero(root, dict(zip(refs, vfu))):
+            stats["unit:skipped-division-by-zero"] = stats.get("unit:skipped-division-by-zero", 0) + 1
+        else:
+            if not same_inst(expected_instance(root, dict(zip(refs, vfu))), r["inst_unit"]["ok"]):
+                return "instance_from_unit_vector differs from the composition evaluated at the priors' values"
+            if "ok" not in r.get("inst_vec_of_unit", {}) or not same_inst(r["inst_unit"]["ok"], r["inst_vec_of_unit"]["ok"]):
+                return "instance_from_unit_vector differs from instance_from_vector(vector_from_unit_vector)"
+            stats["unit:compared"] = stats.get("unit:compared", 0) + 1
+    else:
+        if "ok" in r["inst_unit"]:
+            return "vector_from_unit_vector raised %s but instance_from_unit_vector succeeds" % r["vec_from_unit"]["exc"]
+        stats["unit:skipped-" + r["vec_from_unit"]["exc"]] = stats.get("unit:skipped-" + r["vec_from_unit"]["exc"], 0) + 1
     return None
 
 
-def coq_case(c, r, vec_hex=None):
+def coq_case(r, vec_hex, cmp_inst=True, prune=False):
     tree = r["tree"]
+    fl = lambda xs: clist([cfloat(unhex(x)) for x in xs])
+    unit_ok = cmp_inst and "ok" in r["vec_from_unit"] and "ok" in r["inst_unit"]
     return ("{| c_tree := %s; c_vec := %s; c_paths := %s; c_upaths := %s; c_count := %s; c_ids := %s; "
-            "c_inst := %s; c_inst_paths := %s |}") % (
-        MG.coq_node(tree), clist([cfloat(unhex(x)) for x in (c["vec"] if vec_hex is None else vec_hex)]),
+            "c_inst := %s; c_pv := %s; c_inst_paths := %s; c_unit_vec := %s; c_inst_unit := %s; "
+            "c_cmp_inst := %s; c_prune := %s |}") % (
+        MG.coq_node(tree), fl(vec_hex),
         clist([MG.coq_path(p) for p in r["paths"]]), clist([MG.coq_path(p) for p in r["upaths"]]),
         cnat(r["count"]), clist([cnat(x) for x in r["ids"]]),
-        MG.coq_ival(r["inst"]["ok"]), MG.coq_ival(r["inst_paths"]["ok"]))
+        MG.coq_ival(r["inst"]["ok"]) if cmp_inst else "IMissing",
+        clist(["(%s, %s)" % (MG.coq_path(p), cfloat(unhex(v))) for p, v in r["pv"]]) if cmp_inst else "[]",
+        MG.coq_ival(r["inst_paths_any"]["ok"]) if cmp_inst else "IMissing",
+        fl(r["vec_from_unit"]["ok"]) if unit_ok else "[]",
+        ("(Some %s)" % MG.coq_ival(r["inst_unit"]["ok"])) if unit_ok else "None",
+        "true" if cmp_inst else "false", "true" if prune else "false")
+
+
+# ---------- structural class labels (computed from the case only) ----------
+def structural_classes(root):
+    out = set()
+
+    def visit(e):
+        if e["t"] == "tuple":
+            for m in e["members"]:
+                if m["t"] in ("arith", "unary"):
+                    out.add("arith-member-in-tuple")
+                if m["t"] == "const" and m.get("int"):
+                    out.add("int-const-in-tuple")
+        if e["t"] == "model":
+            sig = MG.SIGNATURES[e["cls"]]
+            tuple_args = [a for a, k, _ in sig if k == "tuple"]
+            for a, k, _ in sig:
+                if k != "tuple" and "_" in a and a.split("_")[0] in tuple_args:
+                    out.add("arg-prefix-is-tuple-arg")
+            if any("_" in a for a in tuple_args):
+                out.add("tuple-arg-name-with-underscore")
+        return False
+    any_node(root, visit)
+    return out
 
 
 def classes_of(c):
-    return ["feature:" + f for f in c["program"]["features"]]
+    roots = [c["program"]["root"]]
+    if "edit" in c:
+        roots.append(apply_edit(c["program"]["root"], c["edit"]))
+    cl = set()
+    for r in roots:
+        cl |= structural_classes(r)
+    return sorted(cl) + ["feature:" + f for f in c["program"]["features"]]
+
+
+def uses_ops2(root):
+    return any_node(root, lambda e: e["t"] == "unary" or (e["t"] == "arith" and e["op"] in ("-", "**")))
+
+
+def eval_codes(ctx, header, terms, shard=40):
+    """One vm_compute sweep: per case a code  1*(check_case fails) + 2*(wfb fails) + 4*(wfb2 fails)."""
+    import re
+    import subprocess
+    fn = ("(fun c => ((if check_case c then 0 else 1) + (if wfb float (c_tree c) then 0 else 2) + "
+          "(if wfb2 float fbits_eqb (c_tree c) then 0 else 4))%N)")
+    os.makedirs(ctx.rundir, exist_ok=True)
+    shards = [terms[i:i + shard] for i in range(0, len(terms), shard)] or [[]]
+    procs = []
+    for si, sh_cases in enumerate(shards):
+        vf = os.path.join(ctx.rundir, "cases_C01_%d.v" % si)
+        with open(vf, "w") as f:
+            f.write(header + "\n")
+            f.write("Definition the_cases : list case :=\n [\n  " + ";\n  ".join(sh_cases) + "\n ].\n")
+            f.write('Redirect "%s/cases_C01_%d" Eval vm_compute in (map %s the_cases).\n' % (ctx.rundir, si, fn))
+        procs.append((si, vf))
+    codes, logs = [], []
+    running = []
+    pending = list(procs)
+    results = {}
+    while pending or running:
+        while pending and len(running) < common.NCPU:
+            si, vf = pending.pop(0)
+            pr = subprocess.Popen(["bash", "-c", "ulimit -s unlimited 2>/dev/null; exec timeout 900 coqc %s %s" % (
+                " ".join(common.coq_flags("C01")), vf)], stdout=subprocess.PIPE, stderr=subprocess.STDOUT, text=True)
+            running.append((si, pr))
+        si, pr = running.pop(0)
+        out, _ = pr.communicate()
+        if pr.returncode != 0:
+            logs.append("shard %d: rc=%d\n%s" % (si, pr.returncode, out[-2000:]))
+            continue
+        txt = open(os.path.join(ctx.rundir, "cases_C01_%d.out" % si)).read()
+        m = re.search(r"=\s*(.*?)\s*:\s*list N", txt, re.S)
+        if not m:
+            logs.append("shard %d: unparsed %s" % (si, txt[:300]))
+            continue
+        results[si] = [int(x) for x in re.findall(r"(\d+)%N", m.group(1))] if "%N" in m.group(1) else \
+            [int(x) for x in re.findall(r"\d+", m.group(1))]
+    ctx.corr["cases"] += len(terms)
+    ctx.corr["shards"] += len(shards)
+    if logs or any(len(results.get(si, [])) != len(sh) for si, sh in enumerate(shards)):
+        ctx.obligation("correspondence:cases", "correspondence", False, ("\n".join(logs) or "case count mismatch")[-900:])
+        return None
+    for si in range(len(shards)):
+        codes += results[si]
+    bad = [i for i, x in enumerate(codes) if x & 1]
+    ctx.corr["disagreements"] += len(bad)
+    ctx.obligation("correspondence:cases", "correspondence", not bad,
+                   "%d/%d cases disagree" % (len(bad), len(terms)) if bad else "%d cases agree" % len(terms))
+    return codes
 
 
 def run(ctx):
-    ctx.rule = ("composition programs over importable classes (float / tuple (arity 2..13) / nested-class arguments), collections from "
-                "list/dict/kwargs/append, array models (elements assigned out of index order; oracle only), shared priors, constants, arithmetic priors, extra attributes, copies of components with a different fixed value, edit-after-freeze histories; priors created in an order "
-                "unrelated to path order; one vector within limits and one unit vector per program. Non-trivial: >= 2 priors and at "
-                "least one of shared prior, nesting, tuple, arithmetic, constant. Distinct = distinct (program, vector).")
+    ctx.rule = ("composition programs over importable classes (float / tuple (arity 2..13) / nested-class (depth <= 3) / list-valued arguments; "
+                "argument names with '_'), keyword arguments supplied or omitted (config-default priors), whole TuplePriors with members out of "
+                "index order, collections from list/dict/kwargs/append/varargs/__setitem__/raw nested lists, array models (elements assigned out "
+                "of index order; oracle only), shared priors, float and int constants, arithmetic priors (+ * / in the Coq model; - ** neg abs "
+                "oracle only) also as tuple members, extra attributes, copies of components with a different fixed value, edit-after-freeze "
+                "histories; priors created in an order unrelated to path order; one vector within limits, one unit vector and one dictionary of "
+                "freely chosen paths per program phase. Non-trivial: >= 2 priors and at least one of shared prior, nesting, tuple, arithmetic, "
+                "constant. Distinct = distinct (program, vector).")
     ctx.trusted = [
         "Coq 8.16.1 kernel incl. vm_compute; primitive floats",
         "harness abstraction of live objects (impl/vbuild.py raw __dict__ walk) and generator's expected tree (modelgen.py)",
-        "arithmetic-prior attribute names are read from the live object (they come from caller frames)",
+        "arithmetic-prior attribute names are read from the live object (they come from caller frames); the harness asserts that they are "
+        "exactly the public keys of the object and hold the operands",
+        "the priors' value_for enters the model of the unit route as a table (vector_from_unit_vector); for uniform priors the oracle "
+        "recomputes it",
     ]
     ctx.assumptions = ["dict keys of one model level are distinct (Python dict)", "vectors are within prior limits (gating is C03)"]
     built = ctx.build()
@@ -334,6 +541,7 @@ def run(ctx):
         for j, r in enumerate(o["results"]):
             results[ci + j * common.NCPU] = r
     coq_cases, coq_idx = [], []
+    stats = {}
     for i, (c, r) in enumerate(zip(cases, results)):
         prog = c["program"]
         feats = set(prog["features"])
@@ -342,52 +550,86 @@ def run(ctx):
         ctx.count_case(c, nontrivial)
         for f in feats:
             ctx.hist("feature", f)
+        cls = classes_of(c)
+        for f in cls:
+            if not f.startswith("feature:"):
+                ctx.hist("structural-class", f)
         ctx.hist("priors", min(nrefs, 20))
         ctx.oracle["cases"] += 1
         if "exc" in r:
             ctx.oracle["failures"] += 1
-            ctx.failure("oracle", "model composition raised %s: %s" % (r["exc"], r.get("msg", "")[-300:]), c, classes=classes_of(c))
+            ctx.failure("oracle", "model composition raised %s: %s" % (r["exc"], r.get("msg", "")[-300:]), c, classes=cls)
             continue
         r = r["ok"]
-        phases = [("initial", prog["root"], c["vec"], r)]
+        phases = [("initial", prog["root"], c["vec"], c["unit"], r)]
         if "edit" in c and "phase2" in r:
             root2 = apply_edit(prog["root"], c["edit"])
-            phases.append(("re-frozen after edit", root2, c["vec2"], r["phase2"]))
-            phases.append(("unfrozen after edit", root2, c["vec2"], r["phase3"]))
-        for phase, root, vec_hex, ro in phases:
+            phases.append(("re-frozen after edit", root2, c["vec2"], c["unit2"], r["phase2"]))
+            phases.append(("unfrozen after edit", root2, c["vec2"], c["unit2"], r["phase3"]))
+        for phase, root, vec_hex, unit_hex, ro in phases:
             refs = referenced(root)
             vmap = dict(zip(refs, [unhex(x) for x in vec_hex]))
-            if has_division_by_zero(root, vmap):
-                ctx.hist("skipped", "division-by-zero")
-                continue
-            if not MG.same_tree(MG.expected_tree(root), ro["tree"]):
+            dz = has_division_by_zero(root, vmap)
+            if dz:
+                ctx.hist("instance-comparison-skipped", "division-by-zero")
+            ops2 = uses_ops2(root)
+            if ops2:
+                ctx.hist("two-sided-abstraction", "skipped: - ** neg abs have no ModelTree node (oracle only)")
+            elif not MG.same_tree(MG.expected_tree(root), ro["tree"]):
                 ctx.oracle["failures"] += 1
                 ctx.failure("correspondence", "[%s] the composition API built a different object graph than the program denotes" % phase,
-                            c, classes=classes_of(c), impl=ro["tree"], broken={"kind": "correspondence", "name": "two-sided abstraction"})
+                            c, classes=cls, impl=ro["tree"], broken={"kind": "correspondence", "name": "two-sided abstraction"})
                 continue
-            msg = oracle(c, ro, root, vec_hex)
+            else:
+                ctx.hist("two-sided-abstraction", "compared")
+            msg = oracle(c, ro, root, vec_hex, unit_hex, stats, skip_inst=dz)
             if msg:
                 ctx.oracle["failures"] += 1
-                ctx.failure("oracle", "[%s] %s" % (phase, msg), c, classes=classes_of(c),
-                            impl={k: ro[k] for k in ("paths", "upaths", "count", "ids", "inst")})
-            if "ok" in ro["inst"] and "ok" in ro["inst_paths"] and MG.tree_ok_for_model(ro["tree"]):
-                coq_cases.append(coq_case(c, ro, vec_hex))
+                ctx.failure("oracle", "[%s] %s" % (phase, msg), c, classes=cls,
+                            impl={k: ro[k] for k in ("paths", "upaths", "count", "ids", "inst", "pv", "inst_paths_any", "vec_from_unit", "inst_unit")})
+            if ops2 or not MG.tree_ok_for_model(ro["tree"]):
+                ctx.hist("coq-correspondence", "not sent: array / - ** neg abs / reserved attribute name")
+                continue
+            sc = structural_classes(root)
+            ok_inst = "ok" in ro["inst"] and "ok" in ro["inst_paths_any"]
+            if msg and ctx.match_known(cls):
+                # a known-finding shape on which the oracle fails: the model is compared in its current-code view
+                if "int-const-in-tuple" in sc or not ok_inst:
+                    coq_cases.append(coq_case(ro, vec_hex, cmp_inst=False))
+                    ctx.hist("coq-correspondence", "known-finding shape: advertised order / count only")
+                else:
+                    coq_cases.append(coq_case(ro, vec_hex, cmp_inst=True, prune="arith-member-in-tuple" in sc))
+                    ctx.hist("coq-correspondence", "known-finding shape: current-code view (prune)")
                 coq_idx.append((i, phase))
+            elif dz or not ok_inst:
+                coq_cases.append(coq_case(ro, vec_hex, cmp_inst=False))
+                coq_idx.append((i, phase))
+                ctx.hist("coq-correspondence", "advertised order / count only (no instance)")
+            else:
+                coq_cases.append(coq_case(ro, vec_hex))
+                coq_idx.append((i, phase))
+                ctx.hist("coq-correspondence", "full")
         if i % 40 == 0:
             ctx.sample({"program_root": prog["root"] if len(str(prog["root"])) < 600 else "(large)", "features": prog["features"],
                         "n_priors": nrefs, "paths": r["paths"][:6], "edit": c.get("edit")})
+    for k_, v_ in sorted(stats.items()):
+        ctx.distribution.setdefault("oracle-coverage", {})[k_] = v_
     if os.path.exists(os.path.join(common.COQ, "C01", "Model.vo")):
-        hdr = ctx.header(["Common.PyFloat", "ModelTree", "Model"])
-        bad, log = ctx.eval_cases(hdr, "case", "check_case", coq_cases, shard=40)
-        # how many generated models satisfy the hypothesis (wfb) of the route theorem -- measured, not required
-        hdr2 = ctx.header(["Common.PyFloat", "ModelTree", "Proofs3", "Model"])
-        notwf, log2 = common.coq_eval_cases("C01", hdr2, "case", "(fun c => wfb float (c_tree c))", coq_cases, ctx.rundir, tag="wf", shard=40)
-        if notwf is not None:
-            ctx.notes["route_theorem_hypothesis_wfb"] = {"models": len(coq_cases), "satisfy_wfb": len(coq_cases) - len(notwf)}
-        for b in (bad or [])[:5]:
-            i, phase = coq_idx[b]
-            ctx.failure("correspondence", "[%s] Coq model and implementation disagree" % phase, cases[i],
-                        classes=classes_of(cases[i]), impl=results[i]["ok"],
-                        broken={"kind": "correspondence", "name": "C01.check_case"}, found_input=False)
+        hdr = ctx.header(["Common.PyFloat", "ModelTree", "Proofs3", "Proofs4", "Model"])
+        codes = eval_codes(ctx, hdr, coq_cases)
+        if codes is not None:
+            # how many generated models satisfy the hypotheses of the route theorems -- measured, not required
+            ctx.notes["route_theorem_hypotheses"] = {"models": len(codes), "satisfy_wfb": sum(1 for x in codes if not x & 2),
+                                                     "satisfy_wfb2": sum(1 for x in codes if not x & 4)}
+            bad = [j for j, x in enumerate(codes) if x & 1]
+            for b in bad[:5]:
+                i, phase = coq_idx[b]
+                ctx.failure("correspondence", "[%s] Coq model and implementation disagree" % phase, cases[i],
+                            classes=classes_of(cases[i]), impl=results[i]["ok"],
+                            broken={"kind": "correspondence", "name": "C01.check_case"}, found_input=False)
     else:
         ctx.obligation("correspondence:cases", "correspondence", False, "Model.vo not built")
+    if os.environ.get("VERIF_C01_DUMP"):      # debugging aid: every violation / known hit of this run, summarised
+        json.dump({"violations": [{"kind": v["kind"], "what": v["what"], "classes": v["classes"], "case": v["case"]} for v in ctx.violations],
+                   "known": {k: h["count"] for k, h in ctx.known_hits.items()}, "distribution": ctx.distribution, "notes": ctx.notes},
+                  open(os.environ["VERIF_C01_DUMP"], "w"), default=str)
